@@ -52,7 +52,7 @@ def decScript (j : Json) : R Script := do
   let logs ← (← fldArr j "logs").toList.mapM (fun e => do
     let p ← e.getArr?
     pure (cps (← strAt p 0), ← decRec (← arrAt p 1)))
-  pure ⟨← decV (← fld j "agentV"), ← fldInt j "turn", ← fldInt j "slice",
+  pure ⟨← decV (← fld j "agentV"), ← decV (← fld j "turnV"), ← fldInt j "turn", ← fldInt j "slice",
         ← decStrList (← fld j "reads"), logs, ← decPairs (← fld j "deltas"), cps (← fldStr j "line")⟩
 
 def decWorld (j : Json) : R World := do
